@@ -114,7 +114,7 @@ RULES = {
     'R12': 'a private helper method without a contract and without `return` is inlined at its call sites: f(a, b) -> { let r12_0 = (a); let r12_1 = (b); let p = r12_0; let q = r12_1; BODY } (modular verification cannot see through an uncontracted call)',
     'M5': 'impl Default for X<T, Echo<T>> { fn default() -> Self { B } } is kept as an inherent constructor `default()` of X<Echo> with the constructor contract',
     'M4': '#[derive(Clone)] is expanded to the field-wise clone it generates (view fields: clone_view, Copy scalars: copy, Vec/VecDeque of scalars: trusted deque_clone/vec_clone); a hand-written Clone impl is left unverified and reported',
-    'R13': 'guard-style early returns `if c { return e; }` of an inlined helper become `if c { e } else { rest }`',
+    'R13': 'guard-style early returns `if c { return e; }` of an inlined helper become `if c { e } else { rest }`; `let x = match e { Some(p) => p, None => return }; rest` becomes `match e { Some(x) => { rest } None => {} }`',
     'L1': 'local variables renamed (same let-bindings in the same order, fresh names): the contract text of the function follows the rename',
     'F1': 'a private struct field was renamed (same field types in the same order): the contract text follows the rename',
     'R6': 'Vec::last().copied() -> same call on a shim helper vec_last(&v) (contract: last element or None)',
@@ -564,6 +564,12 @@ def split_args(a):
 def unreturn(body):
     """R13: a guard `if COND { return E; }` at the top statement level of a helper body becomes `if COND { E } else { REST }`;
     a final `return E;` becomes `E`.  Returns None when a `return` remains that is not of these two shapes."""
+    # `let X = match E { Some(P) => P, None => { return; } }; REST`  (a let-else spelt as a match)  ->  `match E { Some(X) => { REST } None => {} }`
+    lm = re.search(r'(^|[;}])(\s*)let\s+(\w+)\s*=\s*match\s+([\w\.]+)\s*\{\s*Some\((\w+)\)\s*=>\s*\5\s*,\s*None\s*=>\s*(?:\{\s*return\s*;\s*\}|return)\s*,?\s*\}\s*;', body)
+    if lm and body[:lm.start(2)].count('{') == body[:lm.start(2)].count('}') and not re.search(r'\breturn\b', body[:lm.start(2)]):
+        rest = unreturn(body[lm.end():])
+        if rest is None: return None
+        return body[:lm.start(2)] + lm.group(2) + 'match %s { Some(%s) => {%s} None => {} }\n' % (lm.group(4), lm.group(3), rest)
     depth = 0; i = 0; n = len(body)
     while i < n:
         c = body[i]
